@@ -248,6 +248,9 @@ class Fn(object):
             if isinstance(v, str):
                 if '"' in v or any(ord(c) > 126 for c in v):
                     raise Unsupported("string constant %r" % v)
+                if self.spec.get("strconst"):
+                    # strings of this method are texts of DNA patterns: lists of pattern characters
+                    return [], '(%s "%s"%%string)' % (self.spec["strconst"], v)
                 return [], '"%s"%%string' % v
             raise Unsupported("constant %r" % (v,))
         if isinstance(e, ast.Name):
@@ -446,6 +449,11 @@ class Fn(object):
             return b, "tt"
         if src == "six.raise_from":
             return self.expr(e.args[0])
+        if isinstance(f, ast.Attribute) and f.attr == "join" and isinstance(f.value, ast.Constant) and f.value.value == "" \
+                and len(e.args) == 1 and not e.keywords:
+            # "".join(parts): the parts one after the other
+            b, a = self.expr(e.args[0])
+            return b, "(List.concat %s)" % a
         if src == "sum" and len(e.args) == 1 and isinstance(e.args[0], ast.GeneratorExp) \
                 and isinstance(e.args[0].elt, ast.Constant) and e.args[0].elt.value == 1 \
                 and len(e.args[0].generators) == 1 and not e.args[0].generators[0].ifs:
